@@ -18,10 +18,18 @@ type Acc struct {
 	Base  interface{}
 	Field string
 	Write bool
+	// Elem: the access is to the elements of the slice or map held in Base (identified by its
+	// backing array / map header): 'r', 'w', or 'a' = append (a write iff len < cap)
+	Elem byte
 }
 
-func R(base interface{}, field string) Acc { return Acc{base, field, false} }
-func W(base interface{}, field string) Acc { return Acc{base, field, true} }
+func R(base interface{}, field string) Acc { return Acc{base, field, false, 0} }
+func W(base interface{}, field string) Acc { return Acc{base, field, true, 0} }
+
+// RE / WE / AE: element accesses through any expression - a struct field or a local alias of it.
+func RE(x interface{}) Acc { return Acc{x, "[]", false, 'r'} }
+func WE(x interface{}) Acc { return Acc{x, "[]", true, 'w'} }
+func AE(x interface{}) Acc { return Acc{x, "[]", true, 'a'} }
 
 var Steps int64
 
